@@ -750,6 +750,14 @@ void Run::opBuild(const Json& op) {
     }
     predictRun[c->name] = run;
     predictFail[c->name] = run && failFlags.count(c->name) > 0;
+    if (run && !predictFail[c->name])
+      for (auto& o : c->outputs)   // a directory where the tool must write a file: it cannot
+        if (!isVirtualNode(o) && !isDirNode(o) && !isMkdirNode(o) && stateOf(o).exists && stateOf(o).type == (int)simfs::Inode::Dir) predictFail[c->name] = true;
+    if (run && c->strictExtra && !predictFail[c->name]) {
+      // a tool that stops when an undeclared file it needs is absent (C10: "missing undeclared input")
+      ToolResult tr;
+      if (!expectedCommand(*c, &tr)) predictFail[c->name] = true;
+    }
     // a failed run leaves the command "not ok": it runs again next time
   }
   bool anyPredictedFailure = false;
@@ -1011,7 +1019,7 @@ void Run::opBuild(const Json& op) {
       }
   }
   for (auto& e : predictFail)
-    if (e.second && predictRun[e.first] && !ran.count(e.first) && exact && !bCancelIssued)
+    if (e.second && predictRun[e.first] && !ran.count(e.first) && exact && !bCancelIssued && !tainted.count(e.first))
       viol("C10.3", "command " + e.first + " failed before and was not attempted again in build " + std::to_string(buildNo));
 
   if (anyPredictedFailure && ok && exact && !bCancelIssued)
@@ -1472,6 +1480,7 @@ struct Gen {
       }
       if (useDeps && rng.chance(700)) {
         c.deps = c.outputs[0] + ".d";
+        if (property == "C10" && rng.chance(250)) c.strictExtra = true;
         c.style = rng.chance(500) ? "makefile" : "dependency-info";
         if (rng.chance(100)) c.style = "makefile-ignoring-subsequent-outputs";
         // undeclared extra reads with interesting spellings (some of them absent at first)
@@ -1480,7 +1489,7 @@ struct Gen {
           std::string x = hostile || property == "C11" ? hostilePath(100 + i * 4 + k) : "x" + std::to_string(i) + "_" + std::to_string(k) + ".h";
           if (c.style != "dependency-info" && rng.chance(250)) x = std::string(kWork) + "/" + x;   // absolute spelling
           c.extra.push_back(x);
-          if (rng.chance(750)) sources[x[0] == '/' ? x.substr(strlen(kWork) + 1) : x] = freshContent("extra", {});
+          if (c.strictExtra || rng.chance(750)) sources[x[0] == '/' ? x.substr(strlen(kWork) + 1) : x] = freshContent("extra", {});
         }
       }
       if ((property == "C09" || property == "C10") && rng.chance(property == "C09" ? 160 : 90)) c.allowModified = true;
